@@ -44,13 +44,16 @@ inline std::string disasm(const Theo::Program &p) {
   return o;
 }
 
-// user-visible variables of one activation, hidden names (macro temporaries '#...', loop counters) removed
+// user-visible variables of one activation: names a user can write (identifiers of the language). Everything else in
+// the view (macro temporaries, loop counters, compiler temporaries - however they are spelled) is hidden state.
+inline bool is_user_name(const std::string &n) {
+  if (n.empty() || !ref::isidstart((unsigned char)n[0])) return false;
+  for (unsigned char c : n) if (!ref::isidchar(c)) return false;
+  return true;
+}
 inline std::map<std::string, long long> user_view(Theo::VM::Activation &a) {
   std::map<std::string, long long> m;
-  for (auto &p : a.getActivationVariables()) {
-    if (p.first.rfind("#", 0) == 0 || p.first.rfind("Loop Variable", 0) == 0) continue;
-    m[p.first] = p.second;
-  }
+  for (auto &p : a.getActivationVariables()) if (is_user_name(p.first)) m[p.first] = p.second;
   return m;
 }
 
